@@ -245,6 +245,65 @@ func limitedAnnouncesVsClose() *sched.Scenario {
 	}
 }
 
+// K9: an explicit sync whose block hook itself makes a further API call (an
+// explicit sync of another publisher; indexers start entries syncs from the
+// advertisement hook in just this way) || Close. The nested call proceeds or is
+// refused with the shutdown error, depending on when Close flipped the switch;
+// in no order may Close, the outer sync and the nested call wait for each other.
+func nestedSyncVsClose() *sched.Scenario {
+	name := "K9-sync-with-nested-sync-from-its-hook-vs-close"
+	return &sched.Scenario{Name: name,
+		Setup: func(e *sched.Exec) ([]sched.Thread, func()) {
+			w := schedfx.New(e, schedfx.Options{Pubs: 2, ChainLen: 2, Announce: true, Prestore: true})
+			for pi := range w.Pubs {
+				w.Pubs[pi].Publisher.SetRoot(w.Chains[pi].Cids[1])
+			}
+			logHook := w.HookGate
+			nested := false
+			w.HookGate = func(h syncfx.HookCall) {
+				logHook(h)
+				if pi, bi := w.Locate(h.Cid); pi == 0 && bi == 1 && !nested {
+					nested = true
+					e.Log("E call nested-SyncAdChain")
+					_, err := w.Sub.SyncAdChain(context.Background(), w.Pubs[1].AddrInfo())
+					res := "ok"
+					if err != nil {
+						res = "err:" + err.Error()
+					}
+					e.Log("E ret nested-SyncAdChain %s", res)
+				}
+			}
+			return []sched.Thread{
+				{Name: "E", Fn: func() {
+					e.Log("E call SyncAdChain")
+					_, err := w.Sub.SyncAdChain(context.Background(), w.Pubs[0].AddrInfo())
+					res := "ok"
+					if err != nil {
+						res = "err:" + err.Error()
+					}
+					e.Log("E ret SyncAdChain %s", res)
+				}},
+				closeThread(e, w, "C1"),
+			}, finish(e, w)
+		},
+		Check: func(e *sched.Exec) []sched.Finding {
+			out := common(e, name, []string{"E", "C1"})
+			cls := ""
+			for _, l := range e.Obs() {
+				if strings.HasPrefix(l, "E ret nested-SyncAdChain ") {
+					res := strings.TrimPrefix(l, "E ret nested-SyncAdChain ")
+					cls = "nested=" + res
+					if res != "ok" && res != "err:shutdown" {
+						out = append(out, sched.Finding{Sig: name + ":nested-call-wrong-result", Msg: l})
+					}
+				}
+			}
+			e.Class = cls
+			return out
+		},
+	}
+}
+
 // K2: announce-triggered sync || Close
 func announceVsClose() *sched.Scenario {
 	name := "K2-announce-sync-vs-close"
@@ -425,7 +484,7 @@ func postClose(call string) *sched.Scenario {
 
 func TestCheck(t *testing.T) {
 	r := vp.New("C15", "model_checking",
-		"scenarios on the real subscriber built with the instrumentation overlay (gated in-memory publisher, chain of 2-3 signed ads): K1 explicit sync (queried head) || Close, with one and with two concurrent Close callers; K7 explicit syncs of two publishers || Close; K8 announce-triggered syncs of two publishers under a limit of one at a time || Close; K2 announce-triggered sync || Close; K6 two announcements of one publisher and Close with every block already local, the first sync held in its block hook until nothing else can move (a sync still pending when Close cancels must be abandoned); K3 listener registration and cancellation || Close; K5 each of 11 entry points called after Close has returned. All interleavings at the scheduling points (locks, atomics, channel operations, selects, spawns, requests, hook calls, observations) up to the preemption bound, so Close starts at every point of a sync. 'Blocks forever' is decided by quiescence with the caller not finished. states = distinct decision states; transitions = scheduling steps; traces = executions of the real code.",
+		"scenarios on the real subscriber built with the instrumentation overlay (gated in-memory publisher, chain of 2-3 signed ads): K1 explicit sync (queried head) || Close, with one and with two concurrent Close callers; K7 explicit syncs of two publishers || Close; K8 announce-triggered syncs of two publishers under a limit of one at a time || Close; K9 an explicit sync whose block hook makes a nested explicit sync of another publisher || Close; K2 announce-triggered sync || Close; K6 two announcements of one publisher and Close with every block already local, the first sync held in its block hook until nothing else can move (a sync still pending when Close cancels must be abandoned); K3 listener registration and cancellation || Close; K5 each of 11 entry points called after Close has returned. All interleavings at the scheduling points (locks, atomics, channel operations, selects, spawns, requests, hook calls, observations) up to the preemption bound, so Close starts at every point of a sync. 'Blocks forever' is decided by quiescence with the caller not finished. states = distinct decision states; transitions = scheduling steps; traces = executions of the real code.",
 		"cooperative scheduling at synchronization operations; priority selects in source order; one publisher",
 		"goroutine leak = a goroutine of the bubble with a go-libipni frame after Close and cleanup",
 	)
@@ -438,7 +497,7 @@ func TestCheck(t *testing.T) {
 	if vp.Thorough() {
 		bound = 3
 	}
-	scs := []*sched.Scenario{pendingAnnounceVsClose(), twoExplicitVsClose(), limitedAnnouncesVsClose(), explicitVsClose(1), explicitVsClose(2), announceVsClose(), listenerVsClose()}
+	scs := []*sched.Scenario{pendingAnnounceVsClose(), twoExplicitVsClose(), limitedAnnouncesVsClose(), nestedSyncVsClose(), explicitVsClose(1), explicitVsClose(2), announceVsClose(), listenerVsClose()}
 	for _, c := range []string{"SyncAdChain", "SyncEntries", "SyncOneEntry", "SyncHAMTEntries", "Announce", "OnSyncFinished", "GetLatestSync", "SetLatestSync", "RemoveHandler", "HttpPeerStore", "Close"} {
 		scs = append(scs, postClose(c))
 	}
